@@ -21,13 +21,15 @@ from vlib.fakefs import FakeFS
 PROPERTY = "C50"
 LEVEL = "model_checking"
 ENCODED = ["twisted.python.lockfile:FilesystemLock.lock", "twisted.python.lockfile:FilesystemLock.unlock"]
-BOUNDS = {"quick": {"procs": 2, "steps": 14}, "thorough": {"procs": 3, "steps": 12}}
+BOUNDS = {"quick": {"procs": 2, "steps": 14, "sprocs": 2, "ssteps": 14},
+          "thorough": {"procs": 3, "steps": 18, "sprocs": 2, "ssteps": 20}}
 B = {}
-BOUNDS_TEXT = ("`procs` processes, each running lock() once and, if it returned True, later unlock(); every "
-               "interleaving of their symlink/readlink/kill/rmlink calls up to `steps` calls in total (a 2 "
-               "process run needs at most 14); initial state: lock free, held by a live process that never "
-               "releases it, or left behind by a dead process (stale)")
-OUTSIDE = ["more than `procs` processes; a process that calls lock() again after a False result (equivalent to "
+BOUNDS_TEXT = ("each process runs lock() once and, if it returned True, later unlock(); every interleaving of "
+               "their symlink/readlink/kill/rmlink calls up to `steps` calls in total.  Lock initially free or "
+               "held by a live process that never releases it: `procs` processes, `steps` calls.  Lock initially "
+               "left behind by a dead process (stale): `sprocs` processes, `ssteps` calls (three processes "
+               "breaking a stale lock exceed 10^5 interleavings and are not explored)")
+OUTSIDE = ["more processes than stated in the bounds (in particular three processes racing for a stale lock); a process that calls lock() again after a False result (equivalent to "
            "a further process)",
            "processes dying while holding the lock during the run (only an initial stale lock)",
            "pid reuse (a dead owner's pid being taken by a live process)",
@@ -242,7 +244,7 @@ def _toctou(schedule):
     """the OPEN known finding's family, as a predicate over the schedule: started from a stale lock, some
     process X that read the dead owner's pid executes its rmlink successfully after another process's
     successful symlink that followed X's readlink (X removes a lock it never looked at)"""
-    w, _ = _run(schedule, 2, B["procs"])
+    w, _ = _run(schedule, 2, B["sprocs"])
     return w.toctou
 
 
@@ -266,10 +268,10 @@ def mutex(schedule: List[int], init: int) -> bool:
 
 def mutex_stale(schedule: List[int]) -> bool:
     """
-    pre: len(schedule) == B['steps']
+    pre: len(schedule) == B['ssteps']
     post: _
     """
-    w, ok = _run(schedule, 2, B["procs"])
+    w, ok = _run(schedule, 2, B["sprocs"])
     if any(p.acquired for p in w.procs):
         cover("stale_acquired")
     if not ok:
@@ -283,11 +285,11 @@ def mutex_stale(schedule: List[int]) -> bool:
 
 def stale_solo(which: int) -> bool:
     """
-    pre: 0 <= which < B['procs']
+    pre: 0 <= which < B['sprocs']
     post: _
     """
     # liveness half: a process that runs alone (any fair schedule eventually lets it) breaks a stale lock
-    w = _World(2, B["procs"])
+    w = _World(2, B["sprocs"])
     p = None
     for q in w.procs:
         if which == q.idx:
@@ -311,9 +313,9 @@ def classify(harness_name, args):
     return None
 
 
-def _sh(tier):
+def _sh(nprocs):
     # case split on the first two scheduling choices (they are read whenever >= 2 processes are enabled)
-    if BOUNDS[tier]["procs"] == 2:
+    if nprocs == 2:
         alts = ["schedule[%d] == 0", "schedule[%d] != 0"]
     else:
         alts = ["schedule[%d] == 0", "schedule[%d] == 1", "schedule[%d] != 0 and schedule[%d] != 1"]
@@ -321,9 +323,9 @@ def _sh(tier):
 
 
 HARNESSES = [
-    H(mutex, shards=lambda tier: [("init == %d" % i,) + s for i in (0, 1) for s in _sh(tier)],
+    H(mutex, shards=lambda tier: [("init == %d" % i,) + s for i in (0, 1) for s in _sh(BOUNDS[tier]["procs"])],
       timeout={"quick": 150, "thorough": 900}),
-    H(mutex_stale, shards=_sh, labels=("end", "stale_acquired"), timeout={"quick": 150, "thorough": 1200}),
+    H(mutex_stale, shards=lambda tier: _sh(BOUNDS[tier]["sprocs"]), labels=("end", "stale_acquired"), timeout={"quick": 150, "thorough": 1200}),
     H(stale_solo, timeout={"quick": 60, "thorough": 60}),
 ]
 
